@@ -1,8 +1,12 @@
 From Coq Require Import ZArith List String.
 From DRX Require Import Py.PyBytes Py.Val Model.Vwsc.
 Import ListNotations.
-Definition v_pv (p : pv) : val :=
-  match p with PZ z => VZ z | PS s => VB s | PB b => VL [vstr "b"; vbool b] end.
+Fixpoint v_pv (p : pv) : val :=
+  match p with
+  | PZ z => VZ z | PS s => VB s | PB b => VL [vstr "b"; vbool b]
+  | PD d => VL [vstr "d"; VL (map (fun e : bytes * pv => VL [VB (fst e); v_pv (snd e)]) d)]
+  | PL l => VL [vstr "l"; VL (map v_pv l)]
+  end.
 Definition v_dict (d : dict) : val := vlist (fun e : bytes * pv => VL [VB (fst e); v_pv (snd e)]) d.
 Definition v_entry (e : entry) : val :=
   match e with
